@@ -4,6 +4,7 @@ weighted tardiness Σ_a w_a · max(0, C_a − d_a) of the executed job order (C_
 job `a` when the jobs are processed back to back from time 0), for EVERY action list and all data.
 -/
 import Rl4co.Env.Smtwtp
+import Rl4co.Proofs.TspfamParams
 import Rl4co.Spec.Smtwtp
 
 namespace Rl4co.Smtwtp
@@ -25,7 +26,7 @@ theorem pipeline_eq (i : Inst) (t : Int) (as : List Nat) :
 /-- **C03 (SMTWTP).** -/
 theorem reward_eq_objective (i : Inst) (as : List Nat) :
     reward i as = - Spec.Smtwtp.objective i.p i.d i.w as := by
-  simp only [reward, weightedTardiness, Spec.Smtwtp.objective]
+  simp only [reward, weightedTardiness_eq, Spec.Smtwtp.objective]
   rw [pipeline_eq]
 
 /-- jobs (p,d,w): 1:(2,2,1) 2:(3,4,2) 3:(1,9,3); order 2,1,3: C = 3,5,6; only job 1 is late, by 3. -/
